@@ -10,6 +10,7 @@ import Hagall.Spec.RegistryExplore
 import Hagall.Spec.Monitors
 import Hagall.Model.Latency
 import Hagall.Model.Auth
+import Hagall.Model.Receipt
 import Hagall.Model.GridReplay
 import Hagall.Spec.Views
 open Hagall Hagall.Wire
@@ -715,6 +716,21 @@ def checkAuth (toks : List String) : Option String :=
     else some "valid-token-rejected: the protected handler did not run for a request the model admits"
   | _, _, _, _, _ => some "unparseable AUTH line"
 
+/-- `RTRIPLE hashOk=.. siglen=.. recid=.. recovers=.. accepted=.. forwarded=..`: one accepted receipt of the receipts
+    harness; it must have reached the credit service as often as it was accepted when `Receipt.wellFormed`, never otherwise -/
+def checkTriple (toks : List String) : Option (String × String) :=
+  let kv (k : String) : Option Nat :=
+    toks.findSome? fun t => if t.startsWith (k ++ "=") then (t.drop (k.length + 1)).toString.toNat? else none
+  match kv "hashOk", kv "siglen", kv "recid", kv "recovers", kv "accepted", kv "forwarded" with
+  | some h, some l, some r, some rc, some acc, some fw =>
+    let t : Hagall.Receipt.Triple := { hashOk := h == 1, sigLen := l, recId := r, recovers := rc == 1 }
+    let want := ((List.replicate acc t) |> Hagall.Receipt.forwards).length
+    if fw == want then none
+    else if fw > want && !Hagall.Receipt.wellFormed t then some ("invalid-receipt-forwarded", s!"the model forwards it {want} times, the credit service received it {fw} times")
+    else if fw > want then some ("receipt-forwarded-twice", s!"accepted {acc} times, received {fw} times")
+    else some ("valid-receipt-not-forwarded", s!"accepted {acc} times, received {fw} times")
+  | _, _, _, _, _, _ => some ("unparseable", "unparseable RTRIPLE line")
+
 partial def loop (stdin : IO.FS.Stream) (h : Option Hist) (b : Block) : IO Unit := do
   let line ← stdin.getLine
   if line.isEmpty then
@@ -769,6 +785,11 @@ partial def loop (stdin : IO.FS.Stream) (h : Option Hist) (b : Block) : IO Unit 
     | some d =>
       let cause := (d.splitOn ":").head!
       IO.println s!"M 0 C18 {cause} event=0 :: {d} :: STAT {" ".intercalate rest}"
+    loop stdin h b
+  | "RTRIPLE" :: rest =>
+    match checkTriple rest with
+    | none => IO.println "T ok"
+    | some (cause, d) => IO.println s!"M 0 C19 {cause} event=0 :: {d} :: RTRIPLE {" ".intercalate rest}"
     loop stdin h b
   | "AUTH" :: rest =>
     match checkAuth rest with
